@@ -21,6 +21,23 @@ Newton iteration, Cholesky / triangular solves - is executed symbolically; the H
 equal to log q(reverse) - log q(forward), both densities derived from the executed proposal code (Jacobian of the
 executed map w.r.t. the stubbed normal draw; the reverse kernel is the same real code run from the proposed state),
 and the precision move is proved to have a symmetric density (two-branch mixture derived from propose_precision).
+
+Operators on DERIVED parameters (derived_tasks): the operator's parameter is a ViewParameter (slice, step slice, negative-step
+slice = index tensor, list of indices, boolean mask; an int-index view is read by the target) or a CatParameter, all built by the
+real from_json; a TransformedParameter is read by the target while the operator works on the unconstrained parameter.  Their
+.tensor getters return views, temporaries or cached tensors.  In 2-iteration runs EVERY parameter reachable from the target -
+leaves and derived - is snapshotted (expression ids) before the step, after the step and after the decision: reject => identical
+to before, accept => the proposal, and each derived parameter reads exactly what an independent python-list statement of its
+indexing / concatenation / transform gives for the leaves; a stale state after a reject shows in the acceptance obligations of
+iteration 2 (the carried log_joint enters them).  The loggers also log the derived parameters (G5 on those cells).
+
+HMCOperator as an operator of MCMC.run (hmc_tasks; the leapfrog map itself is C16): uninterpreted differentiable target,
+symbolic step size, dense / diagonal mass matrix, identity or symbolic SPD, handed over at construction, through
+mass_matrix.tensor = M, or through load_state_dict.  torch.distributions.(Multivariate)Normal inside Hamiltonian.sample_momentum
+is replaced by a model of its law (loc + L z, L L^T = covariance, z symbolic); cholesky / inverse / cholesky_inverse are
+contract stubs.  G3 for HMC: the term returned by step() == K(p_start) - K(p_end) with K(p) = p^T Sigma^-1 p / 2 (closed-form
+inverse) for the covariance Sigma the momentum WAS DRAWN FROM, p_start = the latest draw (a fresh one per attempt, also after a
+numerically failed trajectory), Sigma == the mass matrix parameter; G1 / G2 / G4 / G5 as for every other operator.
 """
 from __future__ import annotations
 
@@ -45,6 +62,7 @@ from vlib.core import main_for, pmap
 from chk import c15_gmrf
 
 PID = 'C15'
+T_START = __import__('time').time()
 TAU = 0.24  # target acceptance probability of the random-walk operators
 
 # ------------------------------------------------------------------ targets
@@ -57,7 +75,74 @@ LEAVES = {
     'exptr': [('z', [0.2, -0.3], 'real')],
     'dirichlet': [('x', [0.2, 0.3, 0.5], 'simplex')],
     'ufsimplex': [('x', [0.2, 0.3, 0.5], 'simplex')],
+    # operators acting on DERIVED parameters (the operator's parameter is a ViewParameter / CatParameter built from the leaves)
+    'catop': [('p', [0.7], 'real'), ('q', [1.1, -0.6], 'real')],
+    'ufcatop': [('p', [0.7], 'real'), ('q', [1.1, -0.6], 'real')],
+    # HMCOperator inside MCMC.run (uninterpreted differentiable target)
+    'ufh': [('x', [0.3, 0.7], 'real')],
 }
+BASE_TARGETS = ('uf1', 'uf2', 'normal', 'gamma', 'cat', 'exptr', 'dirichlet', 'ufsimplex')  # operators on plain Parameters
+# ViewParameter 'v' of the base parameter b (3 coordinates), indices as accepted by ViewParameter.from_json:
+#   int (0-dim tensor), slices (views of the base storage), a NEGATIVE-step slice (from_json turns it into an index tensor:
+#   the getter returns a temporary), a list of indices (LongTensor: temporary), a list of booleans (BoolTensor mask: temporary)
+VIEW_INDICES = {'vint': 1, 'vslice': '1:3', 'vstep': '::2', 'vneg': '::-1', 'vlist': [2, 0], 'vmask': [True, False, True]}
+for _k in VIEW_INDICES:
+    LEAVES[_k] = LEAVES['uf' + _k] = [('b', [0.7, 1.3, -0.4], 'real')]
+
+
+def view_kind(kind):
+    k = kind[2:] if kind.startswith('uf') else kind
+    return k if k in VIEW_INDICES else None
+
+
+def py_index(lst, idx):
+    """independent statement of the indexing semantics on a python list (int, 'a:b:c', list of ints, list of bools)"""
+    if isinstance(idx, int) and not isinstance(idx, bool):
+        return [lst[idx]]
+    if isinstance(idx, str):
+        return lst[slice(*[int(x) if x != '' else None for x in idx.split(':')])]
+    if all(isinstance(i, bool) for i in idx):
+        return [x for x, m in zip(lst, idx) if m]
+    return [lst[i] for i in idx]
+
+
+def derived_spec(kind):
+    """derived parameters of a target: [(id, json or None when the target json defines it, fn(state, exp) -> flat list of
+    the values the parameter must read for a given leaf state, logged by the loggers?)]"""
+    vk = view_kind(kind)
+    if vk:
+        idx = VIEW_INDICES[vk]
+        out = [('v', {'id': 'v', 'type': 'ViewParameter', 'parameter': 'b', 'indices': idx},
+                lambda st, ex: py_index(st['b'], idx), vk != 'vint')]
+        if vk == 'vint':
+            # no shipped operator can act on a 0-dim parameter (they call len(parameter.tensor)): the operator acts on the
+            # overlapping slice view w = b[0:2] and the int view v = b[1] is read by the target
+            out.append(('w', {'id': 'w', 'type': 'ViewParameter', 'parameter': 'b', 'indices': '0:2'},
+                        lambda st, ex: st['b'][0:2], True))
+        return out
+    if kind in ('catop', 'ufcatop'):
+        return [('c', {'id': 'c', 'type': 'CatParameter', 'parameters': ['p', 'q'], 'dim': -1},
+                 lambda st, ex: list(st['p']) + list(st['q']), True)]
+    if kind == 'exptr':
+        return [('pos', None, lambda st, ex: [ex(z) for z in st['z']], True)]
+    return []
+
+
+def derive(kind, state, sym):
+    """what every derived parameter must read when the leaves hold `state` (node ids if sym, else floats)"""
+    ex = cur().dag.exp if sym else math.exp
+    return {did: list(fn(state, ex)) for did, _, fn, _ in derived_spec(kind)}
+
+
+def cover(kind, pid):
+    """leaf coordinates [(leaf, j)] behind the coordinates of the parameter `pid` (a leaf or a view / concatenation)"""
+    labels = {n: [(n, j) for j in range(len(v))] for n, v, _ in LEAVES[kind]}
+    if pid in labels:
+        return labels[pid]
+    for did, _, fn, _ in derived_spec(kind):
+        if did == pid:
+            return list(fn(labels, None))
+    raise KeyError(pid)
 
 
 def _param(name, v):
@@ -90,6 +175,17 @@ def target_json(kind):
     elif kind == 'dirichlet':
         ds = [{'id': 'prior', 'type': D, 'distribution': 'torch.distributions.Dirichlet', 'x': 'x',
                'parameters': {'concentration': [2.0, 3.0, 1.5]}}]
+    elif view_kind(kind):
+        # a prior on the view AND a prior on the whole base parameter: both readers must see every proposal / restore
+        ds = [{'id': 'pv', 'type': D, 'distribution': 'torch.distributions.Normal', 'x': 'v',
+               'parameters': {'loc': 0.25, 'scale': 1.5}},
+              {'id': 'pb', 'type': D, 'distribution': 'torch.distributions.Normal', 'x': 'b',
+               'parameters': {'loc': -0.5, 'scale': 2.0}}]
+    elif kind == 'catop':
+        ds = [{'id': 'pc', 'type': D, 'distribution': 'torch.distributions.Normal', 'x': 'c',
+               'parameters': {'loc': 0.25, 'scale': 1.5}},
+              {'id': 'pq', 'type': D, 'distribution': 'torch.distributions.Normal', 'x': 'q',
+               'parameters': {'loc': -0.5, 'scale': 2.0}}]
     else:
         raise KeyError(kind)
     return {'id': 'joint', 'type': 'JointDistributionModel', 'distributions': ds}
@@ -99,7 +195,21 @@ def concrete_U(vals):
     return -0.5 * sum(v * v for v in vals) - 0.25 * sum(v ** 4 for v in vals) + 0.3 * math.prod(vals)
 
 
-def make_uf_target(params, sym):
+def concrete_U_torch(q):
+    """concrete_U written with torch operations (differentiable: the HMC replays need its gradient)"""
+    return -0.5 * (q * q).sum() - 0.25 * (q ** 4).sum() + 0.3 * q.prod()
+
+
+def uf_partial_witness(d):
+    """witness functions of U and of its derivative symbols (symbolic reverse differentiation of an uninterpreted target)"""
+    d.uf_eval.setdefault('U', lambda *v: -0.5 * sum(z * z for z in v) + 0.1 * sum(v))
+    for k in range(4):
+        d.uf_eval.setdefault(f'd{k}~U', (lambda k_: lambda *q: -q[k_] + 0.1)(k))
+        for l in range(4):
+            d.uf_eval.setdefault(f'd{l}~d{k}~U', (lambda k_, l_: lambda *q: (-1.0 if k_ == l_ else 0.0))(k, l))
+
+
+def make_uf_target(params, sym, grad=False):
     from torchtree.core.model import CallableModel
 
     class Target(CallableModel):
@@ -109,16 +219,28 @@ def make_uf_target(params, sym):
                 setattr(self, f'p{i}', p)
             self.ps = ps
             self.nan_at = None
+            self.nan_hook = None
             self.calls = 0
 
         def _call(self, *a, **k):
             self.calls += 1
-            if self.nan_at is not None and self.calls == self.nan_at:
+            if (self.nan_at is not None and self.calls == self.nan_at) or (self.nan_hook is not None and self.nan_hook()):
                 return torch.tensor(float('nan'), dtype=torch.float64)
-            q = torch.cat([p.tensor for p in self.ps], -1)
+            q = torch.cat([p.tensor.reshape(-1) for p in self.ps], -1)
             if not sym:
+                if grad:
+                    return concrete_U_torch(q)
                 return torch.tensor(concrete_U(q.tolist()), dtype=torch.float64)
             d = cur().dag
+            if grad:
+                # differentiable: the arguments keep their detach / requires_grad structure (leaf nodes of the engine's autograd)
+                uf_partial_witness(d)
+                ids = q._ids.tolist()
+                if not torch.is_grad_enabled():
+                    ids = [strip_stop(d, i) for i in ids]
+                r = from_ids(torch.tensor(d.uf('U', *ids), dtype=torch.int64))
+                r._rg = torch.is_grad_enabled() and any(getattr(p.tensor, '_rg', False) for p in self.ps)
+                return r
             ids = [strip_stop(d, i) for i in q._ids.tolist()]
             d.uf_eval.setdefault('U', lambda *v: -0.5 * sum(z * z for z in v) + 0.1 * sum(v))
             return from_ids(torch.tensor(d.uf('U', *ids), dtype=torch.int64))
@@ -139,8 +261,8 @@ def state_tensor(v, sym):
     return torch.tensor(v, dtype=torch.float64)
 
 
-def make_target(kind, sym, state=None):
-    """new model objects built FROM the given state: (joint, {leaf id: Parameter})"""
+def build_target(kind, sym, state=None):
+    """new model objects built FROM the given state: (joint, {leaf id: Parameter}, registry of ids, {derived id: parameter})"""
     import torchtree.distributions.distributions  # noqa: F401  (class registration)
     import torchtree.distributions.joint_distribution  # noqa: F401
     from torchtree.core.parameter import Parameter
@@ -149,10 +271,22 @@ def make_target(kind, sym, state=None):
     leaves = {}
     for n, v, _ in LEAVES[kind]:
         leaves[n] = Parameter(n, state_tensor(state[n], sym) if state is not None else torch.tensor(v, dtype=torch.float64))
-    if kind.startswith('uf'):
-        return make_uf_target(list(leaves.values()), sym), leaves
     dic = dict(leaves)
-    joint = process_object(target_json(kind), dic)
+    dspec = derived_spec(kind)
+    for _, js, _, _ in dspec:
+        if js is not None:
+            process_object(js, dic)  # real from_json of ViewParameter / CatParameter
+    if kind.startswith('uf'):
+        # the uninterpreted target reads the derived parameters first, then the leaves
+        joint = make_uf_target([dic[did] for did, _, _, _ in dspec] + list(leaves.values()), sym, grad=(kind == 'ufh'))
+        dic['joint'] = joint
+    else:
+        joint = process_object(target_json(kind), dic)
+    return joint, leaves, dic, {did: dic[did] for did, _, _, _ in dspec}
+
+
+def make_target(kind, sym, state=None):
+    joint, leaves, _, _ = build_target(kind, sym, state)
     return joint, leaves
 
 
@@ -178,7 +312,12 @@ def oracle_logp(kind, state):
         return -((v - mu) ** 2) / (2 * sd * sd) - math.log(sd) - 0.5 * math.log(2 * math.pi)
 
     if kind.startswith('uf'):
-        return concrete_U([v for n, _, _ in LEAVES[kind] for v in state[n]])
+        dv = derive(kind, state, False)
+        return concrete_U([v for did, _, _, _ in derived_spec(kind) for v in dv[did]] + [v for n, _, _ in LEAVES[kind] for v in state[n]])
+    if view_kind(kind):
+        return sum(normal(v) for v in derive(kind, state, False)['v']) + sum(normal(v, -0.5, 2.0) for v in state['b'])
+    if kind == 'catop':
+        return sum(normal(v) for v in list(state['p']) + list(state['q'])) + sum(normal(v, -0.5, 2.0) for v in state['q'])
     if kind == 'normal':
         return sum(normal(v) for v in state['x'])
     if kind == 'gamma':
@@ -222,9 +361,22 @@ def snap(leaves, sym):
     return {n: [float(v) for v in p.tensor.reshape(-1).tolist()] for n, p in leaves.items()}
 
 
-OPCLS = {'scaler': 'ScalerOperator', 'slide': 'SlidingWindowOperator', 'dirichlet': 'DirichletOperator'}
+def unstop(d, ids):
+    """the expressions with every stop node (detach / no_grad marker) removed"""
+    return subst(d, list(ids), {}, drop_stops=True)
+
+
+def snap_d(derived, sym):
+    """what every derived parameter READS now (its public .tensor getter)"""
+    if sym:
+        d = cur().dag
+        return {n: unstop(d, p.tensor._ids.reshape(-1).tolist()) for n, p in derived.items()}
+    return {n: [float(v) for v in p.tensor.reshape(-1).tolist()] for n, p in derived.items()}
+
+
+OPCLS = {'scaler': 'ScalerOperator', 'slide': 'SlidingWindowOperator', 'dirichlet': 'DirichletOperator', 'hmc': 'HMCOperator'}
 OPKEY = {'scaler': 'scaler', 'slide': 'width', 'dirichlet': 'scaler'}
-TP_DEFAULT = {'scaler': 0.6, 'slide': 0.9, 'dirichlet': 40.0}
+TP_DEFAULT = {'scaler': 0.6, 'slide': 0.9, 'dirichlet': 40.0, 'hmc': 0.11}
 
 
 class Stubs:
@@ -237,6 +389,15 @@ class Stubs:
             'torch.distributions.Dirichlet.sample -> fresh symbolic point of the open simplex',
             'print inside torchtree.inference.mcmc.mcmc -> no-op',
             'math module of torchtree.inference.mcmc.operator -> SymMath (exp/log uninterpreted with axioms)']
+    HMC_LIST = ['torch.distributions.MultivariateNormal / Normal as imported by torchtree.inference.hmc.hamiltonian -> model of their '
+                'documented law: sample() = loc + L z with L = cholesky(covariance_matrix) (Normal: loc + scale * z), z a vector of '
+                'fresh symbols (standard normal draw); the covariance the real sample_momentum hands over is recorded',
+                'torch.linalg.cholesky / torch.inverse / torch.cholesky_inverse on a symbolic matrix -> functional contract stubs '
+                '(L L^T = M, L_ii > 0;  W M = M W = I;  X (F F^T) = (F F^T) X = I): the contracts are hypotheses of the Hastings goal',
+                'LeapfrogIntegrator.__call__ -> the real method, its momentum argument and return value are recorded',
+                'math module of torchtree.inference.hmc.operator -> SymMath (exp/log of the step size uninterpreted with axioms)',
+                'uninterpreted differentiable target U: backward() is answered by the derivative symbols d_k U (symbolic reverse '
+                'differentiation of the recorded DAG, as in C16)']
 
     def __init__(self, spec, vals, sym):
         self.spec, self.vals, self.sym = spec, vals, sym
@@ -246,6 +407,32 @@ class Stubs:
         self.draws = {}
         self.u = {}
         self.bad = None
+        self.hmc = any(o == 'hmc' for o, _ in spec['ops'])
+        self.hmc_draws = []  # momentum draws of the current operator step
+        self.hmc_calls = []  # integrator invocations of the current operator step
+        self.n_int = 0  # integrator invocations of the whole run
+        self.in_int = False
+        self.int_model_calls = 0
+
+    def lst(self, x):
+        """nested list of node ids (symbolic run) / floats (plain run) of a tensor"""
+        if self.sym:
+            if isinstance(x, SymTensor):
+                return x._ids.tolist()
+            d = cur().dag
+
+            def rec(v):
+                return [rec(w) for w in v] if isinstance(v, list) else d.const(float(v))
+
+            return rec(x.tolist())
+        return x.tolist()
+
+    def normal_draw(self, n):
+        k = len(self.hmc_draws)
+        vals = [self.value(f'z{self.it}_{k}[{i}]', [0.7, -0.5, 0.4][i] + 0.1 * k) for i in range(n)]
+        if self.sym:
+            return from_ids(torch.tensor(vals, dtype=torch.int64)), vals
+        return torch.tensor(vals, dtype=torch.float64), vals
 
     def value(self, name, default):
         v = self.vals.get(name, default)
@@ -315,7 +502,77 @@ class Stubs:
         if self.sym:
             opmod.math = SymMath15()
         mcmod.print = lambda *a, **k: None
+        if self.hmc:
+            self._enter_hmc()
         return self
+
+    def _enter_hmc(self):
+        import torchtree.inference.hmc.hamiltonian as hm
+        import torchtree.inference.hmc.operator as ho
+        from torchtree.inference.hmc.integrator import LeapfrogIntegrator
+
+        st = self
+
+        class ModelMVN:
+            """the documented law of torch.distributions.MultivariateNormal: sample() ~ N(loc, covariance)"""
+
+            def __init__(self_, loc, covariance_matrix=None, precision_matrix=None, scale_tril=None, validate_args=None):
+                if precision_matrix is not None or (covariance_matrix is None) == (scale_tril is None):
+                    st.bad = 'MultivariateNormal model: exactly one of covariance_matrix / scale_tril is supported'
+                self_.loc, self_.cov, self_.tril = loc, covariance_matrix, scale_tril
+
+            def sample(self_, sample_shape=torch.Size()):
+                L = self_.tril if self_.tril is not None else torch.linalg.cholesky(self_.cov)
+                z, zv = st.normal_draw(L.shape[-1])
+                p = self_.loc + L @ z
+                sigma = self_.cov if self_.cov is not None else L @ L.T
+                st.hmc_draws.append({'z': zv, 'p': st.lst(p), 'Sigma': st.lst(sigma)})
+                return p
+
+        class ModelNormal:
+            """the documented law of torch.distributions.Normal: sample() ~ N(loc, scale^2), independent coordinates"""
+
+            def __init__(self_, loc, scale, validate_args=None):
+                self_.loc, self_.scale = loc, scale
+
+            def sample(self_, sample_shape=torch.Size()):
+                sc = self_.scale
+                z, zv = st.normal_draw(sc.shape[-1])
+                p = self_.loc + sc * z
+                var = st.lst(sc * sc)
+                n = len(var)
+                zero = 0 if st.sym else 0.0
+                st.hmc_draws.append({'z': zv, 'p': st.lst(p), 'Sigma': [[var[i] if i == j else zero for j in range(n)] for i in range(n)]})
+                return p
+
+        real_call = LeapfrogIntegrator.__call__
+
+        def rec_call(self_, model, parameters, momentum, inverse_mass_matrix):
+            entry = {'pin': st.lst(momentum), 'pout': None, 'ndraws': len(st.hmc_draws)}
+            st.hmc_calls.append(entry)
+            st.n_int += 1
+            st.in_int, st.int_model_calls = True, 0
+            try:
+                out = real_call(self_, model, parameters, momentum, inverse_mass_matrix)
+            finally:
+                st.in_int = False
+            entry['pout'] = st.lst(out)
+            return out
+
+        self.saved_hmc = (hm, hm.MultivariateNormal, hm.Normal, ho, ho.math, LeapfrogIntegrator, real_call)
+        hm.MultivariateNormal, hm.Normal = ModelMVN, ModelNormal
+        LeapfrogIntegrator.__call__ = rec_call
+        ho.print = lambda *a, **k: None
+        if self.sym:
+            ho.math = SymMath15()
+
+    def _exit_hmc(self):
+        hm, mvn, nrm, ho, hmath, LI, real_call = self.saved_hmc
+        hm.MultivariateNormal, hm.Normal = mvn, nrm
+        ho.math = hmath
+        LI.__call__ = real_call
+        if 'print' in ho.__dict__:
+            del ho.__dict__['print']
 
     def __exit__(self, *exc):
         from torchtree.inference.mcmc import mcmc as mcmod
@@ -325,7 +582,59 @@ class Stubs:
          torch.distributions.Dirichlet.sample, opmod.math) = self.saved
         if 'print' in mcmod.__dict__:
             del mcmod.__dict__['print']
+        if self.hmc:
+            self._exit_hmc()
         return False
+
+
+DIVERGENCE = 987.0  # divergence threshold of the HMC operator under test (a distinctive constant: its comparison is recognised)
+M_DEFAULT = {True: {'M[0,0]': 0.9, 'M[0,1]': 0.1, 'M[1,1]': 1.4}, False: {'M[0]': 0.9, 'M[1]': 1.4}}
+
+
+def mass_value(cfg, vals, sym):
+    """mass matrix of the HMC chains: identity (constants) or a symbolic symmetric matrix / positive vector"""
+    dense = cfg['dense']
+    if cfg['mass'] == 'identity':
+        return torch.eye(2, dtype=torch.float64) if dense else torch.ones(2, dtype=torch.float64)
+    g = {n: vals.get(n, v) for n, v in M_DEFAULT[dense].items()}
+    if sym:
+        d = cur().dag
+        g = {n: d.var(n, v) for n, v in g.items()}
+    if dense:
+        rows = [[g['M[0,0]'], g['M[0,1]']], [g['M[0,1]'], g['M[1,1]']]]
+    else:
+        rows = [g['M[0]'], g['M[1]']]
+    return from_ids(torch.tensor(rows, dtype=torch.int64)) if sym else torch.tensor(rows, dtype=torch.float64)
+
+
+def make_hmc_operator(k, pids, cfg, tp, vals, sym, dic):
+    """the real HMCOperator built from JSON; the mass matrix reaches it at construction, through the parameter setter
+    (what MassMatrixAdaptor does) or through load_state_dict (checkpoint)"""
+    import torchtree.inference.hmc.integrator  # noqa: F401  (class registration)
+    import torchtree.inference.hmc.operator  # noqa: F401
+    from torchtree.core.parameter import Parameter
+    from torchtree.core.utils import process_object
+
+    M = mass_value(cfg, vals, sym)
+    how = cfg.get('how', 'ctor')
+    steps = cfg.get('steps', 1)
+    ident = torch.eye(2, dtype=torch.float64) if cfg['dense'] else torch.ones(2, dtype=torch.float64)
+    mass = Parameter('mass', M if how == 'ctor' else ident)
+    dic['mass'] = mass
+    js = {'id': f'op{k}', 'type': 'HMCOperator', 'joint': 'joint', 'parameters': list(pids), 'weight': 1.0 + k,
+          'integrator': {'id': 'leapfrog', 'type': 'LeapfrogIntegrator', 'steps': steps, 'step_size': tp},
+          'mass_matrix': 'mass', 'target_acceptance_probability': 0.8, 'divergence_threshold': DIVERGENCE}
+    op = process_object(js, dic)
+    if how == 'setter':
+        mass.tensor = M
+    elif how == 'lsd':
+        op.load_state_dict({'id': op.id, 'adapt_count': 0, 'accept': 0, 'reject': 0, 'accept_window': [],
+                            'mass_matrix': {'id': 'mass', 'type': 'torchtree.Parameter', 'tensor': M.tolist(),
+                                            'dtype': 'torch.float64', 'nn': False},
+                            'integrator': {'id': 'leapfrog', 'step_size': tp, 'steps': steps}})
+    elif how != 'ctor':
+        raise KeyError(how)
+    return op
 
 
 def execute(spec, vals, sym, hooks=None):
@@ -353,24 +662,37 @@ def execute(spec, vals, sym, hooks=None):
             init[name] = ids
         else:
             init[name] = free + ([1.0 - sum(free)] if dom == 'simplex' else [])
-    joint, leaves = make_target(kind, sym, init)
-    dic = dict(leaves)
+    joint, leaves, dic, derived = build_target(kind, sym, init)
     ops = []
     for k, (okind, pids) in enumerate(spec['ops']):
         tp = vals.get(f'tp{k}', TP_DEFAULT[okind])
         if sym:
             tp = mkfloat(d.var(f'tp{k}', tp))
+        if okind == 'hmc':
+            ops.append(make_hmc_operator(k, pids, spec['hmc'], tp, vals, sym, dic))
+            continue
         js = {'id': f'op{k}', 'type': OPCLS[okind], 'parameters': list(pids), 'weight': 1.0 + k,
               'target_acceptance_probability': TAU, OPKEY[okind]: tp}
         ops.append(process_object(js, dic))
     st = Stubs(spec, vals, sym)
-    rec = {'iters': [], 'crash': None, 'init_joint': None, 'rows': [], 'file_rows': None, 'init_state': init}
+    rec = {'iters': [], 'crash': None, 'init_joint': None, 'rows': [], 'file_rows': None, 'init_state': init,
+           'init_d': snap_d(derived, sym), 'assumed_pcs': []}
+    if spec.get('hmc', {}).get('fail'):
+        # numerical failure: the target is NaN at the second evaluation inside the FIRST leapfrog trajectory of the run
+        def nan_hook():
+            if st.in_int and st.n_int == 1:
+                st.int_model_calls += 1
+                return st.int_model_calls == 2
+            return False
+
+        joint.nan_hook = nan_hook
     tmp = tempfile.mkdtemp(prefix='c15_')
     try:
         container = []
         loggers = []
+        dlogged = [did for did, _, _, lg in derived_spec(kind) if lg]
         if spec.get('loggers', True):
-            logged = [joint] + list(leaves.values())
+            logged = [joint] + list(leaves.values()) + [derived[n] for n in dlogged]
             loggers = [Logger(logged, 1, file_name=os.path.join(tmp, 'samples.csv')),
                        ContainerLogger(logged, container, 1)]
         mc = MCMC('mcmc', joint, ops, len(spec['plan']), loggers=loggers, every=0, checkpoint=None)
@@ -384,7 +706,7 @@ def execute(spec, vals, sym, hooks=None):
                     if rec['iters'] and 'support' in str(e):
                         rec['iters'][-1]['joint'] = ('outside-support', snap(leaves, sym))
                     raise
-                ev = (scalar_of(v, sym), snap(leaves, sym))
+                ev = (scalar_of(v, sym), snap(leaves, sym), snap_d(derived, sym))
                 if rec['init_joint'] is None:
                     rec['init_joint'] = ev
                 else:
@@ -393,7 +715,7 @@ def execute(spec, vals, sym, hooks=None):
 
         mc.joint = JointRec()
         for k, op in enumerate(ops):
-            instrument(op, k, spec['ops'][k][0], rec, st, leaves, sym)
+            instrument(op, k, spec['ops'][k][0], rec, st, leaves, sym, derived)
         if hooks:
             hooks(mc, ops, joint, st)
         with st:
@@ -424,38 +746,58 @@ def execute(spec, vals, sym, hooks=None):
             rec['file_rows'] = parse_log(text, sym) if text.strip() else None
         rec['stub_error'] = st.bad
         rec['leaf_order'] = [n for n in leaves]
+        rec['derived_logged'] = dlogged
     finally:
         shutil.rmtree(tmp, ignore_errors=True)
     return rec
 
 
-def instrument(op, k, okind, rec, st, leaves, sym):
+def instrument(op, k, okind, rec, st, leaves, sym, derived=None):
     real_step, real_accept, real_reject, real_tune = op.step, op.accept, op.reject, op.tune
+    derived = derived or {}
 
     def step():
-        ev = {'op': k, 'kind': okind, 'before': snap(leaves, sym), 'tp_before': scalar_of(op.tuning_parameter, sym),
-              'joint': None, 'accepted': None, 'acc': None}
+        ev = {'op': k, 'kind': okind, 'before': snap(leaves, sym), 'before_d': snap_d(derived, sym),
+              'tp_before': scalar_of(op.tuning_parameter, sym), 'joint': None, 'accepted': None, 'acc': None}
         rec['iters'].append(ev)
         st.in_step = True
         st.draws = {}
+        if okind == 'hmc':
+            st.hmc_draws, st.hmc_calls = [], []
+            ev['hmc'] = {'M': st.lst(op.mass_matrix)}
+            npc = len(cur().pcs) if sym else 0
         try:
             h = real_step()
         finally:
             st.in_step = False
         ev['h'] = scalar_of(h, sym)
         ev['after'] = snap(leaves, sym)
+        ev['after_d'] = snap_d(derived, sym)
         ev['draws'] = dict(st.draws)
+        if okind == 'hmc':
+            ev['hmc'].update(draws=list(st.hmc_draws), calls=list(st.hmc_calls),
+                             rg_off=all(p.requires_grad is False for p in op.parameters))
+            if sym:
+                # the comparison of the energy error with the divergence threshold only prints a message
+                t = cur()
+                thr = t.dag.const(DIVERGENCE)
+                for c in t.pcs[npc:]:
+                    a = t.dag.args[c][0] if t.dag.ops[c] == 'not' else c
+                    if t.dag.ops[a] in ('lt', 'le') and thr in t.dag.args[a]:
+                        rec['assumed_pcs'].append(c)
         return h
 
     def accept():
         real_accept()
         rec['iters'][-1]['accepted'] = True
         rec['iters'][-1]['post'] = snap(leaves, sym)
+        rec['iters'][-1]['post_d'] = snap_d(derived, sym)
 
     def reject():
         real_reject()
         rec['iters'][-1]['accepted'] = False
         rec['iters'][-1]['post'] = snap(leaves, sym)
+        rec['iters'][-1]['post_d'] = snap_d(derived, sym)
 
     def tune(acceptance_prob, sample, accepted):
         rec['iters'][-1]['acc'] = scalar_of(acceptance_prob, sym)
@@ -496,7 +838,7 @@ def chain_domain(d, spec):
     """constraints on every input symbol that exists in the DAG"""
     cs = []
     kind = spec['target']
-    scaled = {p for okind, pids in spec['ops'] if okind == 'scaler' for p in pids}
+    scaled = scaled_coords(spec)
     for name, default, dom in LEAVES[kind]:
         n = len(default)
         if dom == 'simplex':
@@ -511,8 +853,12 @@ def chain_domain(d, spec):
             v = d.var_ids[f'{name}[{i}]']
             if dom == 'pos':
                 cs.append(d.lt(0, v))
-            elif name in scaled:
+            elif (name, i) in scaled:
                 cs.append(d.not_(d.eq(v, 0)))
+    V = d.var_ids
+    if 'M[0,0]' in V:  # symbolic dense mass matrix: symmetric (one symbol for both off-diagonal entries) positive definite
+        cs += [d.lt(0, V['M[0,0]']), d.lt(0, d.sub(d.mul(V['M[0,0]'], V['M[1,1]']), d.mul(V['M[0,1]'], V['M[0,1]'])))]
+    cs += [d.lt(0, V[n]) for n in ('M[0]', 'M[1]') if n in V]
     for k, (okind, _) in enumerate(spec['ops']):
         v = d.var_ids[f'tp{k}']
         cs.append(d.lt(0, v))
@@ -535,9 +881,19 @@ def chain_domain(d, spec):
     return cs
 
 
+def scaled_coords(spec):
+    """leaf coordinates a ScalerOperator of the chain can pick (directly or through a view / concatenation)"""
+    return {c for okind, pids in spec['ops'] if okind == 'scaler' for p in pids for c in cover(spec['target'], p)}
+
+
+_DRAW = re.compile(r'^(u|xi)\d+$')
+_ZDRAW = re.compile(r'^z\d+_\d+\[\d+\]$')
+_YDRAW = re.compile(r'^(y\d+)\[\d+\]$')
+
+
 def in_domain(spec, vals):
     kind = spec['target']
-    scaled = {p for okind, pids in spec['ops'] if okind == 'scaler' for p in pids}
+    scaled = scaled_coords(spec)
     for name, default, dom in LEAVES[kind]:
         n = len(default)
         vs = [vals.get(f'{name}[{i}]', default[i]) for i in range(n - 1 if dom == 'simplex' else n)]
@@ -545,7 +901,14 @@ def in_domain(spec, vals):
             return False
         if dom == 'pos' and min(vs) <= 0:
             return False
-        if dom == 'real' and name in scaled and any(v == 0 for v in vs):
+        if dom == 'real' and any(v == 0 for i, v in enumerate(vs) if (name, i) in scaled):
+            return False
+    if spec.get('hmc', {}).get('mass') == 'sym':
+        g = {n: vals.get(n, v) for n, v in M_DEFAULT[spec['hmc']['dense']].items()}
+        if spec['hmc']['dense']:
+            if g['M[0,0]'] <= 0 or g['M[0,0]'] * g['M[1,1]'] - g['M[0,1]'] ** 2 <= 0:
+                return False
+        elif min(g.values()) <= 0:
             return False
     for k, (okind, _) in enumerate(spec['ops']):
         v = vals.get(f'tp{k}', TP_DEFAULT[okind])
@@ -553,9 +916,9 @@ def in_domain(spec, vals):
             return False
     ys = {}
     for name, v in vals.items():
-        if re.match(r'^(u|xi)\d+$', name) and not (0 <= v < 1):
+        if _DRAW.match(name) and not (0 <= v < 1):
             return False
-        m = re.match(r'^(y\d+)\[\d+\]$', name)
+        m = _YDRAW.match(name)
         if m:
             ys.setdefault(m.group(1), []).append(v)
     for vs in ys.values():
@@ -681,7 +1044,102 @@ def hastings_goal(d, t, ev, it):
         out['goal_hyps'] = []
         out['instance'] = []
         return out
+    if kind == 'hmc':
+        return hmc_hastings_goal(d, t, ev, it, out)
     raise KeyError(kind)
+
+
+def kinetic(d, p, sigma, sym=True):
+    """K(p) = p^T Sigma^-1 p / 2 for the covariance Sigma of the momentum (n <= 2: closed-form inverse; any n if diagonal);
+    sym=False: the same formula on floats"""
+    n = len(p)
+    if sym:
+        add, sub, mul, div, half = d.add, d.sub, d.mul, d.div, d.const(0.5)
+    else:
+        add, sub, mul, div, half = (lambda a, b: a + b), (lambda a, b: a - b), (lambda a, b: a * b), (lambda a, b: a / b), 0.5
+    diag = all(sigma[i][j] == 0 for i in range(n) for j in range(n) if i != j)
+    if diag:
+        acc = 0
+        for i in range(n):
+            acc = add(acc, div(mul(p[i], p[i]), sigma[i][i]))
+        return mul(half, acc)
+    if n != 2:
+        raise NotImplementedError('dense momentum covariance of dimension > 2')
+    det = sub(mul(sigma[0][0], sigma[1][1]), mul(sigma[0][1], sigma[1][0]))
+    q = add(sub(sub(mul(mul(p[0], p[0]), sigma[1][1]), mul(mul(p[0], p[1]), sigma[0][1])), mul(mul(p[1], p[0]), sigma[1][0])),
+            mul(mul(p[1], p[1]), sigma[0][0]))
+    return mul(half, div(q, det))
+
+
+def spd_conditions(d, sigma):
+    n = len(sigma)
+    if all(sigma[i][j] == 0 for i in range(n) for j in range(n) if i != j):
+        return [d.lt(0, sigma[i][i]) for i in range(n)]
+    return [d.lt(0, sigma[0][0]), d.lt(0, d.sub(d.mul(sigma[0][0], sigma[1][1]), d.mul(sigma[0][1], sigma[1][0]))),
+            d.eq(sigma[0][1], sigma[1][0])]
+
+
+def as_matrix(M, zero=0):
+    """mass matrix parameter value (vector = diagonal) as a square nested list"""
+    if M and not isinstance(M[0], list):
+        return [[M[i] if i == j else zero for j in range(len(M))] for i in range(len(M))]
+    return M
+
+
+def contract_rows(t):
+    """hypotheses delivered by the contract stubs executed so far (inverse, cholesky, cholesky_inverse)"""
+    hy = []
+    for c in getattr(t, 'contracts', []):
+        if c['kind'] in ('inverse', 'cholesky_inverse'):
+            hy += list(c['left'].values()) + list(c['right'].values())
+        elif c['kind'] == 'cholesky':
+            hy += list(c['rows'].values()) + list(c['positive'])
+    return hy
+
+
+def hmc_hastings_goal(d, t, ev, it, out):
+    """HMC as a Metropolis-Hastings proposal on (q, p): the momentum is drawn from N(0, Sigma), the trajectory is the
+    deterministic volume-preserving reversible map of C16, so  log q(rev) - log q(fwd) = log N(p_end; 0, Sigma) -
+    log N(p_start; 0, Sigma) = K(p_start) - K(p_end),  K(p) = p^T Sigma^-1 p / 2  with Sigma the covariance the momentum WAS
+    DRAWN FROM.  The statement is proved for arbitrary start / end momenta (p_start, p_end generalised to fresh variables)."""
+    hm = ev['hmc']
+    calls, draws = hm['calls'], hm['draws']
+    good = [c for c in calls if c['pout'] is not None]
+    if not good or not draws or not (1 <= good[-1]['ndraws'] <= len(draws)):
+        out['frame'] = False
+        out['note'] = 'no completed leapfrog trajectory / no momentum draw in a step that returned a finite Hastings term'
+        return out
+    c = good[-1]
+    last = draws[c['ndraws'] - 1]
+    pin, pout = unstop(d, c['pin']), unstop(d, c['pout'])
+    sigma = [unstop(d, r) for r in last['Sigma']]
+    Mp = [unstop(d, r) for r in as_matrix(hm['M'])]
+    n = len(pin)
+    A = [d.var(f'abs!P{i}', d.vals[x]) for i, x in enumerate(pin)]
+    C = [d.var(f'abs!Q{i}', d.vals[x]) for i, x in enumerate(pout)]
+    m = {}
+    for x, v in zip(pout, C):
+        m[x] = v
+    for x, v in zip(pin, A):
+        m.setdefault(x, v)
+    h_abs = subst(d, unstop(d, [ev['h']]), m)[0]
+    h_true = d.sub(kinetic(d, A, sigma), kinetic(d, C, sigma))
+    fresh = d.bconst(len(draws) == len(calls) and c['ndraws'] == len(draws) and pin == unstop(d, last['p']))
+    law = d.and_(*[d.eq(sigma[i][j], Mp[i][j]) for i in range(n) for j in range(n)])
+    spd = spd_conditions(d, Mp)
+    out['lemmas'] = [('every leapfrog trajectory starts from a fresh momentum draw (one draw per attempt, the integrator is handed the latest)',
+                      fresh, 'HMCOperator._step:momentum-not-redrawn'),
+                     ('the momentum is drawn from N(0, M) with M the value of the mass matrix parameter at the step', law,
+                      'Hamiltonian.sample_momentum:law')]
+    out['goal'] = d.eq(h_abs, h_true)
+    out['goal_hyps'] = []
+    out['instance'] = []
+    out['chain_lemmas'] = False  # the Hastings statement is about the covariance actually used for the draw, whatever it is
+    hy = spd_conditions(d, sigma) + spd + contract_rows(t)
+    out['dom'] = hy + ground_axioms(d, [law, out['goal']] + hy)
+    out['goal_label'] = ('Hastings term == K(p_start) - K(p_end), K(p) = p^T M^-1 p / 2 for the M the momentum was drawn from '
+                         '(= log N(p_end; 0, M) - log N(p_start; 0, M))')
+    return out
 
 
 # ------------------------------------------------------------------ symbolic run -> goals
@@ -697,7 +1155,7 @@ def symbolic_run(spec, W, hooks=None):
         r.rec = execute(spec, W, True, hooks)
         r.npc_run = len(t.pcs)
         r.pcs = list(t.pcs)
-        r.dom = chain_domain(t.dag, spec)
+        r.dom = chain_domain(t.dag, spec) + contract_rows(t)
         r.W = {n: t.dag.vals[i] for n, i in t.dag.var_ids.items() if '!' not in n}
         r.V = {n: i for n, i in t.dag.var_ids.items() if '!' not in n}
         r.concretized = list(t.concretized)
@@ -731,25 +1189,44 @@ def build_goals(run, spec):
     def same(a, b):
         return d.bconst(a == b)
 
+    has_derived = bool(derived_spec(kind))
+
+    def reads(snapshot, state):
+        """every derived parameter (view / concatenation / transform) reads exactly the given leaf state"""
+        want = derive(kind, state, True)
+        return same(snapshot, {n: unstop(d, v) for n, v in want.items()})
+
     ij = rec['init_joint']
     T_init = fresh_eval(kind, rec['init_state'])
     G('initial density == target evaluated from scratch at the initial state',
       d.and_(d.eq(ij[0], T_init), same(ij[1], rec['init_state'])), 'MCMC.run:initial-density')
+    if has_derived:
+        G('initially every derived parameter reads the leaves', d.and_(reads(rec['init_d'], rec['init_state']), reads(ij[2], rec['init_state'])),
+          'derived-parameter:initial')
     cur_state = rec['init_state']
     for it, ev in enumerate(rec['iters']):
         tag = f'iter {it + 1} [{ev["kind"]}]: '
         opname = OPCLS[ev['kind']]
         G(tag + 'the operator starts from the chain\'s current state', same(ev['before'], cur_state), 'MCMC.run:state-continuity')
+        if has_derived:
+            G(tag + 'before the step every parameter reachable from the target (views, concatenations, transforms) reads the chain\'s current state',
+              reads(ev['before_d'], cur_state), 'MCMC.run:state-continuity-derived')
+            G(tag + 'after the step every derived parameter reads the proposed state', reads(ev['after_d'], ev['after']),
+              f'{opname}._step:derived-parameter-stale')
         hg = hastings_goal(d, t, ev, it)
         run.hg = getattr(run, 'hg', []) + [hg]
         if not hg['frame']:
             G(tag + 'proposal changes one coordinate as a function of (coordinate, tuning parameter, draw): ' + hg['note'],
               d.FALSE, f'{opname}._step:proposal-frame')
         else:
-            for lab, node in hg['lemmas']:
-                G(tag + lab, node, f'{opname}._step:hastings-ratio', hyps=hg['dom'], key='abs')
-            G(tag + 'Hastings term == log q(x|x\') - log q(x\'|x) of the executed proposal', hg['goal'],
-              f'{opname}._step:hastings-ratio', hyps=hg['dom'] + hg['goal_hyps'] + [n for _, n in hg['lemmas']], key='abs')
+            for lem in hg['lemmas']:
+                G(tag + lem[0], lem[1], lem[2] if len(lem) > 2 else f'{opname}._step:hastings-ratio', hyps=hg['dom'], key='abs')
+            G(tag + hg.get('goal_label', 'Hastings term == log q(x|x\') - log q(x\'|x) of the executed proposal'), hg['goal'],
+              f'{opname}._step:hastings-ratio',
+              hyps=hg['dom'] + hg['goal_hyps'] + ([lem[1] for lem in hg['lemmas']] if hg.get('chain_lemmas', True) else []), key='abs')
+            if ev['kind'] == 'hmc':
+                G(tag + 'requires_grad is switched off on every parameter of the operator when step() returns',
+                  d.bconst(ev['hmc']['rg_off']), 'HMCOperator._step:requires-grad')
             # a zero coordinate is a fixed point of the scale move (no density): excluded from the domain
             run.dom = run.dom + list(hg['instance'])
         T0 = fresh_eval(kind, ev['before'])
@@ -777,7 +1254,8 @@ def build_goals(run, spec):
         else:
             T1 = fresh_eval(kind, ev['after'])
             G(tag + 'density used for the proposal == target evaluated from scratch at the proposed state',
-              d.and_(d.eq(ev['joint'][0], T1), same(ev['joint'][1], ev['after'])), 'MCMC.run:proposal-density-stale')
+              d.and_(d.eq(ev['joint'][0], T1), same(ev['joint'][1], ev['after']),
+                     reads(ev['joint'][2], ev['after']) if has_derived else d.TRUE), 'MCMC.run:proposal-density-stale')
             u = ev['u']
             la = d.add(d.sub(T1, T0), ev['h'])
             E = d.exp(la)
@@ -796,10 +1274,17 @@ def build_goals(run, spec):
         if ev['accepted']:
             G(tag + 'after accept() the state is the proposal', same(ev['post'], ev['after']), f'{opname}.accept:state')
             cur_state = ev['after']
+            if has_derived:
+                G(tag + 'after accept() every derived parameter keeps the proposed expressions',
+                  d.and_(same(ev['post_d'], ev['after_d']), reads(ev['post_d'], cur_state)), f'{opname}.accept:state-derived')
         else:
             G(tag + 'after reject() every parameter is bit-identical (same expressions) to its value before the proposal',
               same(ev['post'], ev['before']), f'{opname}.reject:restore')
             cur_state = ev['before']
+            if has_derived:
+                G(tag + 'after reject() every parameter reachable from the target (views, concatenations, transforms) is bit-identical '
+                  '(same expressions) to its value before the proposal',
+                  d.and_(same(ev['post_d'], ev['before_d']), reads(ev['post_d'], cur_state)), f'{opname}.reject:restore-derived')
         # tuning keeps the tuning parameter inside its domain
         tpa = ev.get('tp_after')
         if tpa is not None:
@@ -824,8 +1309,19 @@ def build_goals(run, spec):
             Tl = fresh_eval(kind, logged, nograd=False)
             G(f'{src} row {k}: logged density == target at the logged parameter values, which are the chain state',
               d.and_(d.eq(dens, Tl), same(logged, stt)), f'{src}.log:row-self-consistent')
+            if rec['derived_logged']:
+                want = derive(kind, logged, True)
+                got = {}
+                for n in rec['derived_logged']:
+                    got[n] = unstop(d, cells[pos:pos + len(want[n])])
+                    pos += len(want[n])
+                G(f'{src} row {k}: the logged derived parameters (views, concatenations, transforms) are those of the logged leaves, no further cells',
+                  d.and_(same(got, {n: unstop(d, want[n]) for n in got}), d.bconst(pos == len(cells))),
+                  f'{src}.log:row-self-consistent-derived')
     if rec['file_rows'] is not None:
         hdr = ['sample', 'joint'] + [f'{n}.{i}' for n in order for i in range(len(rec['init_state'][n]))]
+        dinit = derive(kind, rec['init_state'], True)
+        hdr += [f'{n}.{i}' for n in rec['derived_logged'] for i in range(len(dinit[n]))]
         G('Logger header names the logged columns', d.bconst(rec['file_rows']['header'] == hdr), 'Logger.initialize:header')
     return goals
 
@@ -879,6 +1375,10 @@ def witness_grid(spec):
         if okind == 'dirichlet':
             names.append(f'ydraw{it}')
             opts.append(['near', 'far'])
+        elif okind == 'hmc':
+            # the sign of the energy error (min(0, log alpha) branch) depends on the direction of the momentum relative to the position
+            names.append(f'zscale{it}')
+            opts.append([1.0, -1.0])
         else:
             names.append(f'xi{it}')
             opts.append([0.12, 0.88])
@@ -890,9 +1390,66 @@ def witness_grid(spec):
                 pts = {'near': [0.22, 0.31], 'far': [0.6, 0.3]}[v]
                 for i, p in enumerate(pts):
                     W[f'y{it}[{i}]'] = p
+            elif n.startswith('zscale'):
+                for i, p in enumerate([0.7, -0.5]):
+                    W[f'z{n[6:]}_0[{i}]'] = p * v
             else:
                 W[n] = v
         yield W
+
+
+def compile_eval(d, roots):
+    """d.evaluate(roots, env) for many environments: the topological order is computed once and the DAG below the roots
+    is turned into one straight-line python function (same semantics as DAG.evaluate, floats)"""
+    order = d.topo(roots)
+    consts, funcs, lines = [], [], []
+    for n in order:
+        op, a = d.ops[n], d.args[n]
+        if op == 'const':
+            consts.append(float(a[0]))
+            rhs = f'C[{len(consts) - 1}]'
+        elif op == 'var':
+            rhs = f'float(env[{a[0]!r}])'
+        elif op == 'add':
+            rhs = f'v{a[0]} + v{a[1]}'
+        elif op == 'mul':
+            rhs = f'v{a[0]} * v{a[1]}'
+        elif op == 'div':
+            rhs = f'(v{a[0]} / v{a[1]} if v{a[1]} != 0 else NAN)'
+        elif op == 'ipow':
+            rhs = f'v{a[0]} ** {int(a[1])}'
+        elif op == 'stop':
+            rhs = f'v{a[0]}'
+        elif op == 'ite':
+            rhs = f'(v{a[1]} if v{a[0]} else v{a[2]})'
+        elif op == 'uf':
+            f = d.uf_eval.get(a[0])
+            if f is None:
+                return lambda rs, env: d.evaluate(rs, env)
+            funcs.append(f)
+            rhs = f'F[{len(funcs) - 1}](' + ', '.join(f'float(v{x})' for x in a[1:]) + ')'
+        elif op == 'le':
+            rhs = f'v{a[0]} <= v{a[1]}'
+        elif op == 'lt':
+            rhs = f'v{a[0]} < v{a[1]}'
+        elif op == 'eq':
+            rhs = f'v{a[0]} == v{a[1]}'
+        elif op == 'and':
+            rhs = '(' + ' and '.join(f'v{c}' for c in a) + ')' if a else 'True'
+        elif op == 'or':
+            rhs = '(' + ' or '.join(f'v{c}' for c in a) + ')' if a else 'False'
+        elif op == 'not':
+            rhs = f'(not v{a[0]})'
+        elif op == 'bconst':
+            rhs = repr(bool(a[0]))
+        else:
+            return lambda rs, env: d.evaluate(rs, env)
+        lines.append(f'    v{n} = {rhs}')
+    lines.append('    return {' + ', '.join(f'{r}: v{r}' for r in dict.fromkeys(roots)) + '}')
+    ns = {'C': consts, 'F': funcs, 'NAN': math.nan}
+    exec('def _f(env):\n' + '\n'.join(lines), ns)
+    fn = ns['_f']
+    return lambda rs, env: fn(env)
 
 
 def find_flip(run, i, spec, rng, trials=600):
@@ -900,16 +1457,33 @@ def find_flip(run, i, spec, rng, trials=600):
     (the recorded expressions are evaluated with the true exp / log / lgamma and the witness function of U)"""
     d = run.d
     roots = run.pcs[:i + 1]
-    names = d.variables(roots)
-    base = dict(run.W)
+    # (the symbols of the mass matrix and of the contract stubs computed from it keep their witness values)
+    names = [n for n in d.variables(roots) if '!' not in n and not n.startswith('M[')]
+    base = {n: d.vals[i_] for n, i_ in d.var_ids.items()}
+    base.update(run.W)
     kind = spec['target']
     simplex = {n for n, _, dom in LEAVES[kind] if dom == 'simplex'}
-    for trial in range(trials):
+    if not names:
+        return None
+    evaluate = compile_eval(d, roots)
+    # the draws of the latest iteration the decision reads: changing only them keeps the decisions of the earlier iterations
+    its = {n: int(re.search(r'\d+', n).group()) for n in names if _DRAW.match(n) or _ZDRAW.match(n)}
+    fresh = [n for n in its if its[n] == max(its.values())] if any(_ZDRAW.match(n) for n in its) else []
+    for trial in range(-150 if fresh else 0, trials):
         env = dict(base)
-        for n in names:
+        if trial < 0:
+            for n in fresh:
+                if _DRAW.match(n):
+                    env[n] = rng.choice([rng.random(), rng.random() ** 3, 1 - rng.random() ** 3])
+                else:
+                    env[n] = rng.gauss(0.0, 1.0) * rng.choice([0.2, 1.0, 2.5])
+        for n in (names if trial >= 0 else ()):
             stem = n.split('[')[0]
-            if re.match(r'^(u|xi)\d+$', n):
+            if _DRAW.match(n):
                 env[n] = rng.choice([rng.random(), rng.random() ** 3, 1 - rng.random() ** 3])
+            elif _ZDRAW.match(n):
+                if trial % 2:
+                    env[n] = rng.gauss(0.0, 1.0) * rng.choice([0.2, 1.0, 2.5])  # a standard normal draw, several scales
             elif re.match(r'^y\d+$', stem) or stem in simplex:
                 pass
             elif n.startswith('tp'):
@@ -938,11 +1512,11 @@ def find_flip(run, i, spec, rng, trials=600):
         if not in_domain(spec, env):
             continue
         try:
-            ev = d.evaluate(roots, env)
+            ev = evaluate(roots, env)
         except (ValueError, OverflowError, ZeroDivisionError):
             continue
         if all(ev[c] for c in roots[:-1]) and not ev[roots[-1]]:
-            return env
+            return {n: v for n, v in env.items() if '!' not in n}
     # phase 2: greedy walk that pushes the comparison of decision i towards its other side while the prefix keeps holding
     a = roots[-1]
     sign = 1.0
@@ -953,10 +1527,11 @@ def find_flip(run, i, spec, rng, trials=600):
     lhs, rhs = d.args[a]
     env = dict(base)
     best = None
+    evaluate2 = compile_eval(d, roots + [lhs, rhs])
     for step in range(4000):
         cand = dict(env)
         n = rng.choice(names)
-        if re.match(r'^(u|xi)\d+$', n):
+        if _DRAW.match(n):
             cand[n] = min(0.999999, max(0.0, cand[n] + rng.gauss(0, 0.2)))
         elif '[' in n and (re.match(r'^y\d+$', n.split('[')[0]) or n.split('[')[0] in simplex):
             cand[n] = cand[n] * math.exp(rng.gauss(0, 0.3))
@@ -965,13 +1540,13 @@ def find_flip(run, i, spec, rng, trials=600):
         if not in_domain(spec, cand):
             continue
         try:
-            ev = d.evaluate(roots + [lhs, rhs], cand)
+            ev = evaluate2(roots + [lhs, rhs], cand)
         except (ValueError, OverflowError, ZeroDivisionError):
             continue
         if not all(ev[c] for c in roots[:-1]):
             continue
         if not ev[roots[-1]]:
-            return cand
+            return {n_: v for n_, v in cand.items() if '!' not in n_}
         m = sign * (ev[lhs] - ev[rhs])  # to be increased
         if m != m:
             continue
@@ -990,8 +1565,27 @@ def chain_task(task, tr):
     tr.fn(MCMC.run, MCMC.__init__, opmod.MCMCOperator.step, opmod.MCMCOperator.accept, opmod.MCMCOperator.reject,
           opmod.MCMCOperator.tune, Logger.log, Logger.initialize, ContainerLogger.log)
     for okind, _ in spec['ops']:
+        if okind == 'hmc':
+            from torchtree.inference.hmc.hamiltonian import Hamiltonian
+            from torchtree.inference.hmc.integrator import LeapfrogIntegrator
+            from torchtree.inference.hmc.operator import HMCOperator
+
+            tr.fn(HMCOperator._step, HMCOperator.__init__, HMCOperator.update_mass_matrices, HMCOperator.handle_parameter_changed,
+                  HMCOperator._load_state_dict, HMCOperator.from_json, HMCOperator.set_adaptable_parameter, HMCOperator.tune,
+                  Hamiltonian.sample_momentum, Hamiltonian.kinetic_energy, Hamiltonian.potential_energy, LeapfrogIntegrator.__call__)
+            tr.stubs |= set(Stubs.HMC_LIST)
+            tr.assumptions.add('HMC chains: the leapfrog map itself (reversible, volume preserving) is the subject of C16; the energy error '
+                               f'stays below the divergence threshold {DIVERGENCE} (beyond it the operator only prints a message)')
+            continue
         cls = getattr(opmod, OPCLS[okind])
         tr.fn(cls._step, cls.set_adaptable_parameter, cls.from_json)
+    if derived_spec(spec['target']):
+        from torchtree.core.parameter import CatParameter, TransformedParameter, ViewParameter
+
+        if view_kind(spec['target']):
+            tr.fn(ViewParameter.from_json, ViewParameter.tensor.fget, ViewParameter.tensor.fset)
+        if 'catop' in spec['target']:
+            tr.fn(CatParameter.tensor.fget, CatParameter.tensor.fset, CatParameter.update, CatParameter.handle_parameter_changed)
     if not spec['target'].startswith('uf'):
         from torchtree.core.parameter import CatParameter, TransformedParameter
         from torchtree.distributions.distributions import Distribution
@@ -1038,6 +1632,8 @@ def chain_task(task, tr):
             sib = key[:i] + ((key[i][0], not key[i][1]),)
             if sib in checked or any(k[:i + 1] == sib for k in runs):
                 continue
+            if run.pcs[i] in run.rec['assumed_pcs']:
+                continue  # stated assumption (energy error below the divergence threshold): the other side is outside the domain
             checked.add(sib)
             # 1. concrete search (true exp/log/lgamma/U on the recorded expressions) for an input that takes the other branch
             W2 = find_flip(run, i, spec, rng)
@@ -1137,6 +1733,8 @@ def chain_task(task, tr):
             else:
                 hy = full + list(g['extra'])
             st, r, _ = prove(d, hy, node, timeout=30, get_values=varids, tr=tr, label=g['label'], parallel=True)
+            if os.environ.get('C15_DEBUG'):
+                print(f'  goal [{st}] {round(r.secs, 2) if r is not None else "-"}s {g["label"][:150]}')
             if st != 'proved' and g.get('alt') is not None:
                 st2, _, _ = prove(d, hy, g['alt'], timeout=30, tr=tr, label=g['label'] + ' (or exactly zero)')
                 if st2 == 'proved':
@@ -1169,6 +1767,20 @@ def chain_task(task, tr):
                           f'and the concrete replay found no disagreement')
     tr.bounds['chain'] = ('MCMC.run for 1-2 iterations; 1-2 operators per chain; parameters of dimension <= 3; operator, '
                           'parameter and coordinate choices enumerated; both accept and reject histories (all decision paths)')
+    if derived_spec(spec['target']):
+        tr.bounds['operators on derived parameters'] = (
+            'ScalerOperator / SlidingWindowOperator acting on a ViewParameter of a 3-coordinate base parameter (slice 1:3, step slice ::2, '
+            'negative-step slice ::-1 = index tensor, list of indices [2,0], boolean mask; an int-index view is read by the target while the '
+            'operator acts on the overlapping slice 0:2) and on a CatParameter of two parameters (1 + 2 coordinates); TransformedParameter '
+            '(exp) read by the target with the operator on the unconstrained parameter; 2 iterations, all accept / reject histories; every '
+            'leaf AND every derived parameter is compared (expression ids) before / after the step and after the decision; the loggers log '
+            'the derived parameters too')
+    if any(o == 'hmc' for o, _ in spec['ops']):
+        tr.bounds['HMC inside MCMC.run'] = (
+            'HMCOperator built from JSON as the only operator of MCMC.run, 1-2 iterations, dimension 2, 1 leapfrog step, symbolic step size; '
+            'diagonal and dense mass matrix; identity (constants) and symbolic SPD; the symbolic matrix reaches the operator at construction, '
+            'through mass_matrix.tensor = M (adaptor idiom) or through load_state_dict; one chain with a numerically failed first trajectory '
+            '(retry with a fresh momentum)')
 
 
 # ------------------------------------------------------------------ concrete replay of a chain
@@ -1248,13 +1860,46 @@ def replay_chain(spec, vals, focus=None, hooks=None):
     if not close(rec['init_joint'][0], logp):
         return True, f'initial density {rec["init_joint"][0]} but the target at the initial state is {logp}'
     expected_rows = [state]
+
+    def stale(snapshot, st_):
+        """a derived parameter (view / concatenation / transform) that does not read the leaf state st_"""
+        want = derive(kind, st_, False)
+        return [(n, snapshot[n], want[n]) for n in want if not sclose({n: snapshot[n]}, {n: want[n]})]
+
     for it, ev in enumerate(rec['iters']):
         if not sclose(ev['before'], state):
             return True, f'iteration {it + 1}: the operator started from {ev["before"]}, the chain state is {state}'
+        if stale(ev['before_d'], state):
+            n, got, want = stale(ev['before_d'], state)[0]
+            return True, f'iteration {it + 1}: before the step the derived parameter {n} reads {got}, the chain state gives {want}'
         okind = ev['kind']
         prop = ev['after']
+        if stale(ev['after_d'], prop):
+            n, got, want = stale(ev['after_d'], prop)[0]
+            return True, f'iteration {it + 1}: after the step the derived parameter {n} reads {got}, the proposed leaves give {want}'
         ch = [(n, j) for n in state for j in range(len(state[n])) if state[n][j] != prop[n][j]]
-        if okind in ('scaler', 'slide'):
+        if okind == 'hmc':
+            if ev['h'] == 'nonfinite':
+                if ev['accepted'] or any(ev['post'][n] != state[n] for n in state):
+                    return True, f'iteration {it + 1}: a non-finite Hastings term was not rejected / restored'
+                expected_rows.append(state)
+                continue
+            hm = ev['hmc']
+            good = [c for c in hm['calls'] if c['pout'] is not None]
+            if not good or not hm['draws']:
+                return True, f'iteration {it + 1}: HMCOperator.step() returned the finite term {ev["h"]!r} without a completed trajectory'
+            c = good[-1]
+            if len(hm['draws']) != len(hm['calls']) or c['ndraws'] != len(hm['draws']) or c['pin'] != hm['draws'][-1]['p']:
+                return True, (f'iteration {it + 1}: {len(hm["draws"])} momentum draws for {len(hm["calls"])} trajectories; the completed '
+                              f'trajectory started from {c["pin"]}, the latest draw is {hm["draws"][-1]["p"]}')
+            sigma = hm['draws'][c['ndraws'] - 1]['Sigma']
+            Mp = as_matrix(hm['M'], 0.0)
+            if not all(close(a, b) for ra, rb in zip(sigma, Mp) for a, b in zip(ra, rb)):
+                return True, f'iteration {it + 1}: the momentum was drawn with covariance {sigma}, the mass matrix parameter is {Mp}'
+            h = kinetic(None, c['pin'], sigma, sym=False) - kinetic(None, c['pout'], sigma, sym=False)
+            if not hm['rg_off']:
+                return True, f'iteration {it + 1}: requires_grad is still set on an operator parameter after step()'
+        elif okind in ('scaler', 'slide'):
             if okind == 'scaler' and not ch and any(v == 0 for n in state for v in state[n]):
                 return False, 'a zero coordinate was scaled (outside the domain)'
             if len(ch) != 1:
@@ -1268,7 +1913,11 @@ def replay_chain(spec, vals, focus=None, hooks=None):
             if not sclose({'x': y}, {'x': prop['x']}):
                 return True, f'iteration {it + 1}: the new state is not the Dirichlet draw'
             h = dirichlet_logpdf(x, [c * v for v in y]) - dirichlet_logpdf(y, [c * v for v in x])
-        if isinstance(ev['h'], float) and abs(ev['h'] - h) > 1e-4 * max(1.0, abs(h)):
+        if isinstance(ev['h'], float) and abs(ev['h'] - h) > (1e-7 if okind == 'hmc' else 1e-4) * max(1.0, abs(h)):
+            if okind == 'hmc':
+                return True, (f'iteration {it + 1}: HMCOperator.step() returned {ev["h"]!r} but K(p_start) - K(p_end) = {h!r} with '
+                              f'K(p) = p^T M^-1 p / 2 for the mass matrix M = {sigma} the momentum was drawn from '
+                              f'(p_start = {c["pin"]}, p_end = {c["pout"]})')
             return True, (f'iteration {it + 1}: {OPCLS[okind]} reports Hastings term {ev["h"]!r}; log q(x|x\') - log q(x\'|x) of the '
                           f'executed move is {h!r}')
         lp1 = oracle_logp(kind, prop)
@@ -1299,6 +1948,13 @@ def replay_chain(spec, vals, focus=None, hooks=None):
         if not (all(ev['post'][n] == state[n] for n in state) if not ev['accepted'] else sclose(ev['post'], state)):
             return True, (f'iteration {it + 1}: after {"accept" if ev["accepted"] else "reject"}() the parameters are {ev["post"]}, '
                           f'expected {"bit-identical " if not ev["accepted"] else ""}{state}')
+        if not ev['accepted'] and ev['post_d'] != ev['before_d']:
+            return True, (f'iteration {it + 1}: after reject() the derived parameters read {ev["post_d"]}, before the proposal they read '
+                          f'{ev["before_d"]} (not bit-identical)')
+        if stale(ev['post_d'], state):
+            n, got, want = stale(ev['post_d'], state)[0]
+            return True, (f'iteration {it + 1}: after {"accept" if ev["accepted"] else "reject"}() the derived parameter {n} reads {got}, '
+                          f'the leaves give {want}')
         expected_rows.append(state)
     if spec.get('loggers', True):
         order = rec['leaf_order']
@@ -1307,7 +1963,11 @@ def replay_chain(spec, vals, focus=None, hooks=None):
             if len(rows) != len(exp):
                 return True, f'{src}: {len(rows)} rows for {len(exp)} expected'
             for k, (row, stt) in enumerate(zip(rows, exp)):
-                flat = [v for n in order for v in stt[n]]
+                dv = derive(kind, stt, False)
+                flat = [v for n in order for v in stt[n]] + [v for n in rec['derived_logged'] for v in dv[n]]
+                if len(row) != 1 + len(flat):
+                    return True, f'{src} row {k}: {len(row)} cells for {1 + len(flat)} logged values'
+
                 if not all(close(a, b) for a, b in zip(row[1:], flat)) or not close(row[0], oracle_logp(kind, stt)):
                     return True, (f'{src} row {k}: logged density {row[0]!r} / parameters {row[1:]}; chain state {flat}, '
                                   f'target there {oracle_logp(kind, stt)!r}')
@@ -1772,8 +2432,16 @@ def gmrf_wiring(task, tr):
 
 # ------------------------------------------------------------------ tasks
 def run_task(task, tr):
-    {'chain': chain_task, 'tune': tune_task, 'guard': guard_task, 'gmrf-step': c15_gmrf.step_task,
-     'gmrf-precision': c15_gmrf.precision_task}[task['kind']](task, tr)
+    import time
+
+    t0 = time.time()
+    try:
+        {'chain': chain_task, 'tune': tune_task, 'guard': guard_task, 'gmrf-step': c15_gmrf.step_task,
+         'gmrf-precision': c15_gmrf.precision_task}[task['kind']](task, tr)
+    finally:
+        if os.environ.get('C15_TIMES'):  # debugging aid: per-task wall time, one line per task
+            with open(os.environ['C15_TIMES'], 'a') as fh:
+                fh.write(f'{time.time() - t0:8.1f} s  start+{t0 - T_START:6.1f}  {task.get("label") or {k: v for k, v in task.items() if k != "spec"}}\n')
 
 
 def chain(target, ops, plan, **kw):
@@ -1783,9 +2451,58 @@ def chain(target, ops, plan, **kw):
     return {'kind': 'chain', 'spec': spec, 'label': lab}
 
 
+def hmc_chain(dense, mass, how='ctor', iters=1, fail=False):
+    cfg = {'dense': dense, 'mass': mass, 'how': how, 'steps': 1, 'fail': fail}
+    t = chain('ufh', [('hmc', ['x'])], [(0, 0, 0)] * iters, hmc=cfg)
+    t['label'] = (f'HMC in MCMC.run: {"dense" if dense else "diagonal"} {"identity" if mass == "identity" else "symbolic SPD"} mass matrix '
+                  f'set {"at construction" if how == "ctor" else ("through mass_matrix.tensor" if how == "setter" else "by load_state_dict")}, '
+                  f'{iters} iteration(s)' + (', first trajectory fails numerically' if fail else ''))
+    return t
+
+
+def derived_tasks(tier):
+    """operators acting on derived parameters (2 iterations each: a stale state after a reject shows in iteration 2)"""
+    sc, sl = 'scaler', 'slide'
+    two = lambda a, b: [(0, 0, a), (0, 0, b)]  # noqa: E731
+    if tier == 'quick':
+        return [chain('ufvneg', [(sc, ['v'])], two(0, 2)),
+                chain('ufcatop', [(sc, ['c'])], two(2, 0)),
+                chain('vneg', [(sl, ['v'])], two(0, 2)),
+                chain('ufvslice', [(sl, ['v'])], two(0, 1)),
+                chain('ufvstep', [(sl, ['v'])], two(1, 0)),
+                chain('ufvlist', [(sl, ['v'])], two(0, 0)),
+                chain('ufvmask', [(sl, ['v'])], two(1, 1)),
+                chain('ufvint', [(sl, ['w'])], two(1, 0))]
+    ts = []
+    for vk in VIEW_INDICES:
+        pid = 'w' if vk == 'vint' else 'v'
+        n = len(cover(vk, pid))
+        for j, (flavour, k) in enumerate(itertools.product(('uf' + vk, vk), (sc, sl))):
+            ts.append(chain(flavour, [(k, [pid])], two(j % n, (j + 1 + j // 2) % n)))
+    for j, (flavour, k) in enumerate(itertools.product(('ufcatop', 'catop'), (sc, sl))):
+        ts.append(chain(flavour, [(k, ['c'])], two(j % 3, (j + 2) % 3)))
+        ts.append(chain(flavour, [(k, ['c'])], two((j + 1) % 3, (j + 1) % 3)))
+    # the concatenation and one of its components as parameters of the same operator
+    ts.append(chain('ufcatop', [(sl, ['c', 'q'])], [(0, 0, 1), (0, 1, 0)]))
+    ts.append(chain('catop', [(sc, ['c', 'q'])], [(0, 1, 1), (0, 0, 2)]))
+    return ts
+
+
+def hmc_tasks(tier):
+    if tier == 'quick':
+        return [hmc_chain(True, 'sym', 'ctor'), hmc_chain(True, 'sym', 'setter', iters=2), hmc_chain(True, 'sym', 'lsd'),
+                hmc_chain(False, 'sym', 'setter'), hmc_chain(True, 'identity'), hmc_chain(False, 'identity'),
+                hmc_chain(False, 'sym', 'ctor', fail=True)]
+    ts = [hmc_chain(dense, 'sym', how, iters=2) for dense in (True, False) for how in ('ctor', 'setter', 'lsd')]
+    ts += [hmc_chain(dense, 'identity', iters=2) for dense in (True, False)]
+    ts += [hmc_chain(dense, 'sym', how, fail=True) for dense in (True, False) for how in ('ctor', 'setter')]
+    return ts
+
+
 def tasks_for(tier):
     ts = []
     sc, sl, di = 'scaler', 'slide', 'dirichlet'
+    ts += derived_tasks(tier) + hmc_tasks(tier)
     if tier == 'quick':
         ts += [chain('uf1', [(sc, ['x'])], [(0, 0, 1), (0, 0, 0)]),
                chain('uf2', [(sl, ['x', 'y'])], [(0, 1, 0), (0, 0, 0)]),
@@ -1807,7 +2524,8 @@ def tasks_for(tier):
         ts.append({'kind': 'tune', 'op': 'adaptive-rate', 'count': 9, 'accepted_so_far': 9, 'accepted': True})
         ts.append({'kind': 'tune', 'op': 'adaptive-rate', 'count': 9, 'accepted_so_far': 2, 'accepted': False})
     else:
-        for target, leaves in LEAVES.items():
+        for target in BASE_TARGETS:
+            leaves = LEAVES[target]
             names = [n for n, _, _ in leaves]
             simplex = leaves[0][2] == 'simplex'
             kinds = [di] if simplex else [sc, sl]
@@ -1860,7 +2578,12 @@ def body(chk):
                        'solver obligations; tune()/learn() steps are executed on symbolic floats and the direction of the change of '
                        'the proposal spread is decided with ground instances of exp/log/sqrt laws; the GMRF block update step() is '
                        'executed symbolically (Cholesky as contract stub) and its Hastings term is proved equal to the log density '
-                       'ratio of the executed forward map and of the same code run from the proposed state')
+                       'ratio of the executed forward map and of the same code run from the proposed state; operators acting on '
+                       'ViewParameter / CatParameter objects (and a TransformedParameter in the target): leaves and derived parameters '
+                       'are compared by expression ids around every step and decision of 2-iteration runs; HMCOperator inside '
+                       'MCMC.run: the returned Hastings term is proved equal to K(p_start) - K(p_end) for the covariance the momentum '
+                       'was drawn from (normal draw = loc + L z, cholesky / inverse / cholesky_inverse as contract stubs), for mass '
+                       'matrices set at construction, through the parameter setter and through load_state_dict')
     chk.total.assumptions |= {
         'exp / log / lgamma / sqrt are uninterpreted functions constrained by ground instances of their laws (positivity, sign, '
         'monotonicity, exp(a+b) = exp(a) exp(b), log(1/s) = -log s); proofs (unsat) are sound, counterexamples are replayed',
@@ -1870,7 +2593,13 @@ def body(chk):
         'they cancel in the Hastings ratio and are not part of the obligations',
         'adaptation is treated as fixed during one transition (diminishing adaptation is not examined)',
         'ScalerOperator is applied to non-zero coordinates (0 is a fixed point of the scale move: no proposal density there)',
-        'HMCOperator proposals (leapfrog reversibility / volume preservation / kinetic-energy Hastings term) are the subject of C16 and are not repeated here',
+        'HMCOperator: reversibility / volume preservation of the leapfrog map are the subject of C16; here the Metropolis-Hastings wiring '
+        'around it is decided (momentum law, kinetic-energy Hastings term for the mass matrix the momentum was drawn from, accept rule, '
+        'restore, logged rows) for dimension 2, one leapfrog step, with the normal draw modelled as loc + L z',
+        'operators on derived parameters: no shipped operator can act on a 0-dim parameter (ScalerOperator / SlidingWindowOperator call '
+        'len(parameter.tensor): TypeError before any state change), so an int-index ViewParameter is covered as a parameter READ by the '
+        'target while the operator acts on an overlapping slice view; an operator acting directly on a TransformedParameter (constrained '
+        'space; its setter writes transform.inv(saved), equal over the reals only) is outside: the operator works on the unconstrained parameter',
         'GMRFPiecewiseCoalescentBlockUpdatingOperator: the Hastings term of the real _step is checked for field dimension <= 3 (4 with the '
         'Newton contract stub) on the explored Newton-iteration regions (the proof generalises the Newton outputs, see bounds); the '
         'coalescent model is a stub handing over symbolic sufficient statistics (w >= 0, sum w > 0) and counts; its tuning '
